@@ -593,6 +593,9 @@ func run(cfg Config, scns []Scenario, tier, only string, nproc int, limit time.D
 			if scns[i].MaxExecs == 0 {
 				scns[i].MaxExecs = defaultMax
 			}
+			if v, err := strconv.Atoi(os.Getenv("VERIF_MAXEXECS")); err == nil && v > 0 {
+				scns[i].MaxExecs = v // experiments only
+			}
 		}
 		curBound := map[int]int{} // index into Bounds
 		pendingPerScn := map[int]int{}
@@ -661,7 +664,13 @@ func run(cfg Config, scns []Scenario, tier, only string, nproc int, limit time.D
 					}
 					inflight++
 					mu.Unlock()
-					rq, _ := json.Marshal(wreq{Item: it, Budget: budget, Deadline: deadline.UnixMilli()})
+					ib := budget
+					if scns[it.Scn].HB && !noHB {
+						// the happens-before cache lives in one worker process: do not split such a scenario
+						// (measured: 8x more executions when its subtrees are spread over 16 caches)
+						ib = scns[it.Scn].MaxExecs + 1
+					}
+					rq, _ := json.Marshal(wreq{Item: it, Budget: ib, Deadline: deadline.UnixMilli()})
 					wk.in.Write(rq)
 					wk.in.WriteByte('\n')
 					wk.in.Flush()
